@@ -179,7 +179,78 @@ def _pp(x):
     return out[out.index("\n"):]            # header names the class only; drop the first line anyway
 
 
+def _bigfile(line):
+    """A file larger than 1 MiB described compactly (`<nbytes>:<seed>` instead of the bits): whole-file and windowed views
+    against the in-memory twin built from the same bytes, on the operations whose implementation may work chunk-wise
+    (byte-aligned and plain searches with needles planted across every 64 KiB / 1 MiB boundary, counts, slices, tobytes,
+    hash, equality).  The model is not consulted for these lines (compare() below); the oracle is the twin comparison."""
+    _, _op, kind, spec, off, ln, cls, variant, lsb0, opseed, nops = line.split(SEP)
+    nbytes, seed = (int(t) for t in spec.split(":"))
+    off, ln = _opt(off), _opt(ln)
+    r = _random.Random(seed)
+    data = bytearray(r.randbytes(nbytes))
+    needle = bytes([0xC3, 0x5A, 0x96, 0x0F, 0xF0])
+    planted = []
+    for b in range(1 << 16, nbytes, 1 << 16):            # a needle straddling every 64 KiB boundary (so also every 1 MiB one)
+        if b + 3 <= nbytes:
+            data[b - 2:b + 3] = needle
+            planted.append(b - 2)
+    data = bytes(data)
+    key = ("big", nbytes, seed)
+    if key not in _files:
+        p_ = os.path.join(_TMP, f"big{len(_files)}.bin")
+        with open(p_, "wb") as f:
+            f.write(data)
+        _files[key] = p_
+    path = _files[key]
+    mism = []
+    with options(lsb0=(lsb0 == "1")):
+        def fresh():
+            kw = {}
+            if off is not None:
+                kw["offset"] = off
+            if ln is not None:
+                kw["length"] = ln
+            if variant == "handle":
+                with open(path, "rb") as fh:
+                    return CLASSES[cls](fh, **kw)
+            return CLASSES[cls](filename=path, **kw)
+        o = off or 0
+        total = nbytes * 8
+        l = (total - o) if ln is None else ln
+        def twin():
+            t = Bits(bytes=data)
+            return CLASSES[cls](t[o:o + l])
+        nd = Bits(bytes=needle)
+        r2 = _random.Random(int(opseed))
+        a0 = r2.randrange(0, max(l - 100, 1))
+        ops = [("len", len), ("count1", lambda x: x.count(1)),
+               ("findall_ba", lambda x: list(x.findall(nd, bytealigned=True))[:200]),
+               ("findall", lambda x: list(x.findall(nd))[:200]),
+               ("find_ba_from", lambda x: x.find(nd, start=min(a0, len(x)), bytealigned=True)),
+               ("rfind_ba", lambda x: x.rfind(nd, bytealigned=True)), ("rfind", lambda x: x.rfind(nd)),
+               ("in", lambda x: nd in x), ("split_n", lambda x: len(list(x.split(nd, bytealigned=True)))),
+               ("slice_edge", lambda x: x[(1 << 23) - 40:(1 << 23) + 40].bin), ("slice_rand", lambda x: x[a0:a0 + 77].bin),
+               ("tobytes_hash", lambda x: hash(x.tobytes())), ("eq_twin", lambda x: x == twin()),
+               ("hash_or_err", lambda x: hash(x) if not isinstance(x, BitArray) else "unhashable"),
+               ("startswith", lambda x: x.startswith(x[:100])), ("endswith", lambda x: x.endswith(x[-100:]))]
+        if cls in ("ConstBitStream", "BitStream"):
+            ops.append(("readto", lambda x: (len(x.readto(nd, bytealigned=True)), x.pos)))
+        for name, fn in ops:
+            ra = guarded(lambda: fn(fresh()), _c)
+            rb = guarded(lambda: fn(twin()), _c)
+            if ra != rb:
+                mism.append(f"{name}: file-built gives {ra[:120]}, twin gives {rb[:120]}")
+    return f"ok big {l}", {"twin_mismatch": mism, "n_ops": len(ops), "planted": len(planted)}
+
+
+def compare(o, m, l):
+    return True if l.split(SEP)[2] == "bigfile" else o == m
+
+
 def execute(line):
+    if line.split(SEP)[2] == "bigfile":
+        return _bigfile(line)
     _, _op, kind, data, off, ln, cls, variant, lsb0, opseed, nops = line.split(SEP)
     data, off, ln = unwire(data), _opt(off), _opt(ln)
     nops = int(nops)
@@ -236,6 +307,10 @@ def _expected_window(kind, data, off, ln):
 
 
 def oracle(line, out, extra):
+    if line.split(SEP)[2] == "bigfile":
+        if extra.get("twin_mismatch"):
+            return "file larger than 1 MiB (" + line.split(SEP)[3] + "): " + " ;; ".join(extra["twin_mismatch"][:3])
+        return None
     _, _op, kind, data, off, ln, cls, variant, lsb0, opseed, nops = line.split(SEP)
     data, off, ln = unwire(data), _opt(off), _opt(ln)
     w = _expected_window(kind, data, off, ln)
@@ -251,7 +326,10 @@ def oracle(line, out, extra):
 
 
 def model_line(line):
-    return SEP.join(line.split(SEP)[:6])
+    f = line.split(SEP)
+    if f[2] == "bigfile":
+        return SEP.join(["C08", "route", "plain", "-", "None", "None"])       # placeholder: the model is not consulted (compare)
+    return SEP.join(f[:6])
 
 
 def nontrivial(line):
@@ -292,6 +370,12 @@ def gen(rng, tier):
                               (33001, nb - 33001, "name"), (nb, None, "name")) + (((32760, 17, "name"), (36000, None, "handle")) if big else ()):
         yield SEP.join(["C08", "route", "file", wire(bigdata), sv(off), sv(l), rng.choice(CLASS_NAMES), variant,
                         "1" if rng.random() < 0.3 else "0", str(rng.randrange(10 ** 6)), "3"])
+    # files larger than 1 MiB (compact description; twin comparison on chunk-sensitive operations)
+    for (nbytes, off, l, variant, cls) in [((1 << 20) + 4099, None, None, "name", "Bits"), ((1 << 20) + 4099, None, None, "handle", "ConstBitStream"),
+                                           ((2 << 20) + 77, 0, None, "name", "BitArray"), ((1 << 20) + 4099, 8, 8 * ((1 << 20) + 4000), "name", "BitStream")] + (
+                                           [((3 << 20) + 5, None, None, "name", "Bits"), ((1 << 20) + 4099, 5, None, "handle", "BitArray")] if big else []):
+        yield SEP.join(["C08", "route", "bigfile", f"{nbytes}:{rng.randrange(10 ** 6)}", sv(off), sv(l), cls, variant,
+                        "1" if rng.random() < 0.3 else "0", str(rng.randrange(10 ** 6)), "0"])
     # in-memory routes (no window)
     for data in ["", "1", "1011", "110100111000", rand_bits(rng, 24), rand_bits(rng, 48), rand_bits(rng, 60)] + ([rand_bits(rng, 2040)] if big else []):
         for variant in ("bin", "hex", "oct", "iter", "array", "slice", "copy", "cache", "join", "pack"):
